@@ -445,6 +445,7 @@ pub fn decode_sd(data: &[u8], with_fault: bool) -> SdCase {
         sticky_status: false,
         nwr_gap: false,
         nrc_gap: false,
+        oor_status_only: false,
     };
     let mut timing = timing;
     let use_crc = d.bool();
@@ -519,6 +520,7 @@ pub fn decode_sd(data: &[u8], with_fault: bool) -> SdCase {
         timing.sticky_status = d.bool();
         timing.nwr_gap = d.bool();
         timing.nrc_gap = d.bool();
+        timing.oor_status_only = d.bool();
     }
     let bg_seed = match d.u8() % 8 {
         1 => 0,
